@@ -1,7 +1,7 @@
 (* C03 - Injectors terminate and join all their goroutines on success. *)
 From Coq Require Import List Arith Bool.
 Import ListNotations.
-Require Import Sem2 Safe Live LiveInv GenU GenSound Finite.
+Require Import Sem2 Safe Live LiveInv Twice GenU GenSound Finite.
 
 (* Deadlock freedom: in every state reachable by a fault-free run (no provider error, no cancellation) of a
    well-synchronised, ranked program, as long as some thread has not finished, a step other than the caller's cancel
@@ -45,3 +45,51 @@ Print Assumptions C03_all_declarations.
 Theorem C03_executions_finite : forall p ls s, forallb ffl ls = true -> run p (init p) ls = Some s -> length ls <= bound p.
 Proof. exact fault_free_runs_bounded. Qed.
 Print Assumptions C03_executions_finite.
+
+Definition C03_ex : prog :=
+  {| p_threads := [[ {| it_node := 1; it_args := [(0,0)]; it_waits := [(0,0)]; it_nrets := 1; it_closes := []; it_fallible := false |} ];
+                   [ {| it_node := 0; it_args := []; it_waits := []; it_nrets := 1; it_closes := [(0,0)]; it_fallible := false |} ]];
+     p_argnodes := []; p_reterr := false |}.
+
+(* "never signals the same completion twice": in EVERY execution - provider failures and cancellation at any point
+   included - of a well-synchronised program, a thread that stands at close(ch) finds ch not yet closed (the model's
+   close of a closed channel is the run-time panic), so its close step is enabled. *)
+Theorem C03_never_signals_twice : forall p rank ls s t pc k it x, wfl p rank -> run p (init p) ls = Some s ->
+  nth_error (s_thr s) t = Some (TRun pc (PClose k)) -> item_at p t pc = Some it -> nth_error (it_closes it) k = Some x ->
+  ~ In x (s_closed s).
+Proof. exact never_closes_twice. Qed.
+Print Assumptions C03_never_signals_twice.
+
+Theorem C03_close_never_panics : forall p rank ls s t pc k it x, wfl p rank -> run p (init p) ls = Some s ->
+  cur p s t = Some (pc, PClose k, it) -> nth_error (it_closes it) k = Some x -> exists s', step p s (LClose t) = Some s'.
+Proof. exact close_step_enabled. Qed.
+Print Assumptions C03_close_never_panics.
+
+(* "never waits for a completion signal that no one sends": every awaited signal has exactly one sending position *)
+Theorem C03_one_sender_per_signal : forall p rank t j it x, wfl p rank -> item_at p t j = Some it -> In x (it_waits it) ->
+  exists t' j' it', item_at p t' j' = Some it' /\ In x (it_closes it') /\
+  forall t2 j2 it2, item_at p t2 j2 = Some it2 -> In x (it_closes it2) -> t2 = t' /\ j2 = j'.
+Proof. exact one_sender_per_signal. Qed.
+Print Assumptions C03_one_sender_per_signal.
+
+(* both, for the program emitted for ANY accepted declaration *)
+Theorem C03_signals_all_declarations : forall d g, unew_graph d = Gen.OK g ->
+  exists st, Threads.build (unp g) (upool g) (udeps g) (uisasync g) (uargs g) = Some st /\
+  (forall ls s t pc k it x, Sem2.run (uprog g st) (Sem2.init (uprog g st)) ls = Some s ->
+     cur (uprog g st) s t = Some (pc, PClose k, it) -> nth_error (it_closes it) k = Some x ->
+     ~ In x (s_closed s) /\ exists s', Sem2.step (uprog g st) s (LClose t) = Some s') /\
+  (forall t j it x, item_at (uprog g st) t j = Some it -> In x (it_waits it) ->
+     exists t' j' it', item_at (uprog g st) t' j' = Some it' /\ In x (it_closes it') /\
+     forall t2 j2 it2, item_at (uprog g st) t2 j2 = Some it2 -> In x (it_closes it2) -> t2 = t' /\ j2 = j').
+Proof.
+  intros d g H. destruct (gen_sound d g H) as (st & B & W). exists st. split; [exact B|]. split.
+  - intros ls s t pc k it x R C Hk. split.
+    + destruct (cur_spec _ _ _ _ _ _ C) as (C1 & C2). eapply never_closes_twice; eauto.
+    + eapply close_step_enabled; eauto.
+  - intros t j it x Hit Hx. eapply one_sender_per_signal; eauto.
+Qed.
+Print Assumptions C03_signals_all_declarations.
+
+(* non-vacuity: the example program of C05 reaches a state in which a goroutine stands at its close *)
+Example C03_close_reached : exists ls s, run C03_ex (init C03_ex) ls = Some s /\ nth_error (s_thr s) 1 = Some (TRun 0 (PClose 0)).
+Proof. exists [LEnter 1; LExitOk 1]. eexists. split; vm_compute; reflexivity. Qed.
